@@ -185,7 +185,7 @@ class G:
         if (deep and only_control) or ((deep or k < 0.45) and not only_control):
             out.append(Line(depth, self.simple(), 'stmt', None, sw, cb, vd))
             return
-        kind = r.choice(['if', 'if', 'ifelse', 'ifelse', 'chain', 'for', 'while', 'do', 'switch', 'block', 'if1', 'if1', 'if1'] if not only_control else
+        kind = r.choice(['if', 'if', 'ifelse', 'ifelse', 'chain', 'for', 'while', 'do', 'switch', 'block', 'if1', 'if1', 'if1', 'dangle'] if not only_control else
                         ['if', 'for', 'ifelse'])
         if kind == 'block' and no_block:
             kind = 'if'
@@ -195,6 +195,28 @@ class G:
             out[-1].role = 'bare-open'
             self.block(out, depth + 1, None, sw, cb, vd, nest + 1)
             out.append(Line(depth, '}', 'close', hi, sw, cb, vd))
+            return
+        if kind == 'dangle':
+            # 'if (a) <1-3 braceless loops> { if (b) x; } else y;' - the braces keep the else with the outer if
+            hi = len(out)
+            out.append(Line(depth, 'if (%s)' % self.cond(), 'head', None, sw, cb, vd))
+            v = vd
+            for _ in range(r.randint(1, 3)):
+                v += 1
+                out.append(Line(depth, r.choice(['for (i = 0; i < 3; i++)', 'while (k1-- > 0)', 'for (i = 2; i > 0; i--)']), 'head', None, sw, cb, v))
+            lp = len(out) - 1
+            out.append(Line(depth, '{', 'open', lp, sw, cb, v))
+            out.append(Line(depth + 1, 'if (%s)' % self.cond(), 'head', None, sw, cb, v))
+            out.append(Line(depth + 1, self.simple(), 'stmt', None, sw, cb, v + 1))
+            out.append(Line(depth, '}', 'close', lp, sw, cb, v))
+            hj = len(out)
+            out.append(Line(depth, 'else', 'head-else', hi, sw, cb, vd))
+            if r.random() < 0.5:
+                out.append(Line(depth, self.simple(), 'stmt', None, sw, cb, vd + 1))
+            else:
+                out.append(Line(depth, '{', 'open', hj, sw, cb, vd))
+                out.append(Line(depth + 1, self.simple(), 'stmt', None, sw, cb, vd))
+                out.append(Line(depth, '}', 'close', hj, sw, cb, vd))
             return
         if kind == 'if1':
             # braces around a single nested control statement (what the brace-removal options look for)
